@@ -179,6 +179,11 @@ fn oracle_sub(o: &Ontology, root: u32, leaves: &[u32], res: Option<&Ontology>) -
         if d_new != d_old {
             return Err(format!("distance {l} -> {root}: {d_new:?} in the sub-ontology, {d_old:?} in the source"));
         }
+        // (the source's own answer, the "original distance" a caller would compare with)
+        let d_src = o.hpo(*l).unwrap().distance_to_ancestor(&o.hpo(root).unwrap());
+        if d_src != d_old {
+            return Err(format!("distance_to_ancestor({l},{root}) in the source = {d_src:?}, shortest chain {d_old:?}"));
+        }
         let d_api = s.hpo(*l).unwrap().distance_to_ancestor(&s.hpo(root).unwrap());
         if d_api != d_old {
             return Err(format!("distance_to_ancestor({l},{root}) in the sub-ontology = {d_api:?}, source {d_old:?}"));
